@@ -424,7 +424,7 @@ pub fn eval_case(prop: &str, case: &Case, oracles: &[Oracle], st: &mut Stats, de
             if compare_events(&real, &ar, case.acts.len()).is_none() {
               explained = true;
               for n in names.iter().filter(|_| *o == Oracle::Functional) {
-                st.add_finding(n.to_string(), format!("(known defect of the operator, exactly as described) {}", m.detail), case.show());
+                st.add_finding(n.to_string(), format!("(the operator behaves exactly as it did before its repair - see known_findings.json) {}", m.detail), case.show());
               }
             }
           }
